@@ -700,4 +700,99 @@ theorem raw_eq_seg {R : Rlp} (hR : R.canonical) {s : Src} {t : Tx} {s' : Src} (h
   · exact hraw
   · rw [(fromEip155_ok hfrom).2.2.2.1, hR code e hdec, hseg]
 
+theorem rVarBytes_spec2 (ef : Bool) (s : Src) (w : s.wf) :
+    SpecAt (rVarBytes ef) s (fun d s' => seg s s' = writeVarBytes d ∧ d.length < two64) :=
+  spec_mono (rVarBytes_spec ef s w) (fun d s' adv h => ⟨h.1, by
+    have h1 := seg_length adv
+    rw [h.1] at h1
+    unfold writeVarBytes at h1
+    simp at h1
+    have h2 := adv.2.2
+    rw [adv.1] at h2
+    have h3 := w.2
+    omega⟩)
+
+/-! ### Injectivity of the encoders (used for "the hash input determines the fields") -/
+
+theorem leN_inj (k a b : Nat) (ha : a < 256 ^ k) (hb : b < 256 ^ k) (h : leN k a = leN k b) : a = b := by
+  rw [← fromLE_leN k a ha, ← fromLE_leN k b hb, h]
+
+theorem append_inj_len {α : Type} {a b c d : List α} (h : a ++ b = c ++ d) (hl : a.length = c.length) :
+    a = c ∧ b = d := List.append_inj h hl
+
+theorem wide_head (n : Nat) : ∃ (c : UInt8) (t : Bytes),
+    (if n ≤ 0xFFFF then (0xFD : UInt8) :: leN 2 n else if n ≤ 0xFFFFFFFF then 0xFE :: leN 4 n else 0xFF :: leN 8 n) = c :: t ∧
+    c.toNat ≥ 253 := by
+  split
+  · exact ⟨_, _, rfl, by decide⟩
+  · split
+    · exact ⟨_, _, rfl, by decide⟩
+    · exact ⟨_, _, rfl, by decide⟩
+
+/-- var-uint encodings are prefix-free: the value is determined by the bytes, whatever follows -/
+theorem writeVarUint_prefix_inj (m n : Nat) (hm : m < two64) (hn : n < two64) (x y : Bytes)
+    (h : writeVarUint m ++ x = writeVarUint n ++ y) : m = n ∧ x = y := by
+  have key : m = n := by
+    unfold writeVarUint at h
+    by_cases m1 : m < 0xFD <;> by_cases n1 : n < 0xFD
+    · simp only [m1, n1, if_true] at h
+      have := (List.cons.inj h).1
+      have h2 := congrArg UInt8.toNat this
+      rw [toNat_ofNat_lt m (by omega), toNat_ofNat_lt n (by omega)] at h2
+      exact h2
+    · exfalso
+      simp only [m1, n1, if_true, if_false] at h
+      obtain ⟨c, t, hc, hge⟩ := wide_head n
+      rw [hc] at h
+      have := (List.cons.inj h).1
+      have h2 := congrArg UInt8.toNat this
+      rw [toNat_ofNat_lt m (by omega)] at h2
+      omega
+    · exfalso
+      simp only [m1, n1, if_true, if_false] at h
+      obtain ⟨c, t, hc, hge⟩ := wide_head m
+      rw [hc] at h
+      have := (List.cons.inj h).1
+      have h2 := congrArg UInt8.toNat this
+      rw [toNat_ofNat_lt n (by omega)] at h2
+      omega
+    · simp only [m1, n1, if_false] at h
+      by_cases m2 : m ≤ 0xFFFF <;> by_cases n2 : n ≤ 0xFFFF
+      · simp only [m2, n2, if_true] at h
+        have h3 := (List.cons.inj h).2
+        have := (List.append_inj h3 (by simp [leN_length])).1
+        exact leN_inj 2 m n (by omega) (by omega) this
+      · simp only [m2, n2, if_true, if_false] at h
+        exfalso
+        split at h <;> (have := (List.cons.inj h).1; simp at this)
+      · simp only [m2, n2, if_true, if_false] at h
+        exfalso
+        split at h <;> (have := (List.cons.inj h).1; simp at this)
+      · simp only [m2, n2, if_false] at h
+        by_cases m3 : m ≤ 0xFFFFFFFF <;> by_cases n3 : n ≤ 0xFFFFFFFF
+        · simp only [m3, n3, if_true] at h
+          have h3 := (List.cons.inj h).2
+          have := (List.append_inj h3 (by simp [leN_length])).1
+          exact leN_inj 4 m n (by omega) (by omega) this
+        · simp only [m3, n3, if_true, if_false] at h
+          exfalso
+          have := (List.cons.inj h).1; simp at this
+        · simp only [m3, n3, if_true, if_false] at h
+          exfalso
+          have := (List.cons.inj h).1; simp at this
+        · simp only [m3, n3, if_false] at h
+          have h3 := (List.cons.inj h).2
+          have := (List.append_inj h3 (by simp [leN_length])).1
+          exact leN_inj 8 m n (by unfold two64 at hm; omega) (by unfold two64 at hn; omega) this
+  subst key
+  exact ⟨rfl, List.append_cancel_left h⟩
+
+theorem writeVarBytes_prefix_inj (a b : Bytes) (ha : a.length < two64) (hb : b.length < two64) (x y : Bytes)
+    (h : writeVarBytes a ++ x = writeVarBytes b ++ y) : a = b ∧ x = y := by
+  unfold writeVarBytes at h
+  rw [List.append_assoc, List.append_assoc] at h
+  obtain ⟨hl, h2⟩ := writeVarUint_prefix_inj a.length b.length ha hb _ _ h
+  exact List.append_inj h2 hl
+
+
 end OntVerif.Proofs.Tx
